@@ -25,7 +25,8 @@ Rel == FStr("1e-10")
 SeriesStep(i) ==
   LET s2 == ImFeed(st, R.a[i], R.dt)
       near(q) == CloseRel(R[q][i], Val(s2, q), Rel, FAbs(Val(s2, q)), FStr("1e-300"))
-      mono(q) == i = 1 \/ FLe(R[q][i - 1], FAdd(R[q][i], FMul(FStr("1e-15"), FAbs(R[q][Len(R.a)]))))
+      \* "is non-decreasing": exact (every series is a running sum of non-negative increments, possibly times a positive constant)
+      mono(q) == i = 1 \/ FLe(R[q][i - 1], R[q][i])
   IN /\ st' = s2
      /\ bad' = bad \cup UNION {Fails(near(q), "FinalValue_" \o q) : q \in MS}
                    \cup Fails(\A q \in MS : mono(q) /\ FLe(Zero, R[q][i]), "Monotone")
